@@ -103,8 +103,8 @@ class Rec:
                               % (self.name, have, [a for a, _ in self.fields]))
 
     def term(self, o):
-        if z3.is_expr(getattr(o, 'term', None)) and getattr(o, 'abstract', False):
-            return o.term
+        if abstract_term(o) is not None:
+            return abstract_term(o)
         if not isinstance(o, Obj):
             raise Unsupported('%r stored where a %s is expected' % (o, self.name))
         return self.sort.mk(*[c.term(o.attrs[a]) for a, c in self.fields])
@@ -625,6 +625,11 @@ def spec_eq(it, a, b, excluded=()):
     if isinstance(a, Obj) and isinstance(b, Obj):
         if getattr(a, 'enum_member', False) or getattr(b, 'enum_member', False):
             return a is b
+        ta, tb = abstract_term(a), abstract_term(b)
+        if ta is not None or tb is not None:
+            if ta is None or tb is None or abstract_codec(a) is not abstract_codec(b):
+                return False
+            return abstract_codec(a).eq(ta, tb, excluded)
         if not (isinstance(a.cls, ClassInfo) and isinstance(b.cls, ClassInfo) and E.same_class(a.cls, b.cls)):
             return False
         if is_userdict_class(a.cls):
@@ -855,14 +860,15 @@ class Abstract:
         self.name, self.sort, self.cls_fn, self.eq_fn = name, sort, cls_fn, eq_fn
 
     def term(self, o):
-        t = getattr(o, 'term', None)
-        if not z3.is_expr(t):
+        t = abstract_term(o)
+        if t is None:
             raise Unsupported('%r stored where an abstract %s is expected' % (o, self.name))
         return t
 
-    def wrap(self, t):
-        o = Obj(self.cls_fn() if self.cls_fn else self.name, {})
-        o.term, o.abstract = t, True
+    def wrap(self, t, **attrs):
+        o = Obj(self.cls_fn() if self.cls_fn else self.name, dict(attrs))
+        o.term, o.abstract, o.codec = t, True, self
+        o.attrs['__term__'], o.attrs['__codec__'] = t, self        # survive copy.deepcopy / copy.copy of the engine
         return o
 
     def eq(self, a, b, excluded=()):
@@ -871,6 +877,21 @@ class Abstract:
 
 def abstract_obj(codec, term):
     return codec.wrap(term)
+
+
+def abstract_term(o):
+    """the term of an abstract object (None for ordinary values)"""
+    if not isinstance(o, Obj):
+        return None
+    t = getattr(o, 'term', None)
+    if z3.is_expr(t) and getattr(o, 'abstract', False):
+        return t
+    t = o.attrs.get('__term__')
+    return t if z3.is_expr(t) else None
+
+
+def abstract_codec(o):
+    return getattr(o, 'codec', None) or o.attrs.get('__codec__')
 
 
 class CodecList(SymList):
@@ -1481,3 +1502,209 @@ def contract(invariant, requires=None, lemmas=None):
                     run.assume(fact)
         return cl
     return E.LoopSpec(inv)
+
+
+# =========================================================================================== IntEnum members compare by value
+def _is_int_enum(cls):
+    if not isinstance(cls, ClassInfo):
+        return False
+    for c in E.mro(cls):
+        if isinstance(c, ClassInfo):
+            for b in c.base_nodes:
+                if A._dotted(c.mod, b) in ('enum.IntEnum', 'enum.IntFlag'):
+                    return True
+    return False
+
+
+def _int_enum_contains(it, container, x):
+    """`x in [members of an IntEnum]` for an int x: IntEnum members are ints (== compares the values)"""
+    if isinstance(container, (list, tuple)) and container and all(isinstance(m, Obj) and getattr(m, 'enum_member', False) and _is_int_enum(m.cls) for m in container):
+        if isinstance(x, int) or (z3.is_expr(x) and x.sort() == z3.IntSort()):
+            return E.zor(*[E.zbool(E.eq_values(m.attrs['value'], x)) for m in container])
+    return M.MISSING
+
+
+_prev_compare2 = M.compare
+
+
+def _compare2(it, op, l, r):
+    if isinstance(op, (_ast.In, _ast.NotIn)):
+        c = _int_enum_contains(it, r, l)
+        if c is not M.MISSING:
+            return c if isinstance(op, _ast.In) else E.znot(c)
+    return _prev_compare2(it, op, l, r)
+
+
+M.compare = _compare2
+
+
+# =========================================================================================== class-body scope
+_prev_class_attr_value = M.class_attr_value
+
+
+def _class_attr_value(it, cls, name, node):
+    """a class attribute whose initialiser refers to earlier attributes of the same class body (e.g.
+    `_proto_to_pyvizier = {v: k for k, v in _pyvizier_to_proto.items()}`): evaluated in the class-body scope"""
+    try:
+        return _prev_class_attr_value(it, cls, name, node)
+    except Unsupported as u:
+        if 'unknown name' not in str(u):
+            raise
+        env = {}
+        for n2, node2 in cls.assigns.items():
+            if n2 == name:
+                break
+            try:
+                env[n2] = _class_attr_value(it, cls, n2, node2)
+            except Unsupported:
+                pass
+        return it.eval(E.Frame(cls.mod, env), node)
+
+
+M.class_attr_value = _class_attr_value
+
+
+# =========================================================================================== [e(x) for x in xs] without filter
+_prev_sfm = M.symbolic_filter_map
+
+
+def _map_comprehension(it, fr, e, xs):
+    """a list comprehension over an array-list *without* an `if`: the result has the same length and r[j] = e(xs[j])
+    (the filter encoding's increasing index map is the identity here; stating it directly avoids an inductive argument)"""
+    gen = e.generators[0]
+    if gen.ifs or isinstance(xs, (PairList, CodecList)):
+        return _prev_sfm(it, fr, e, xs)
+    run = it.run
+    J = run.fresh('cj', z3.IntSort())
+    fr2 = E.Frame(fr.mod, {}, parent=fr)
+    it.pure += 1
+    try:
+        it.assign(fr2, gen.target, xs.get(J))
+        eltv = it.eval(fr2, e.elt)
+    finally:
+        it.pure -= 1
+    if isinstance(eltv, Msg):
+        elem, eterm = eltv.schema, eltv.pack()
+    else:
+        eterm = E.to_z3(eltv)
+        elem = {z3.IntSort(): 'int', z3.BoolSort(): 'bool', Str: 'str', xreal.XReal: 'float', pm.PyObj: 'pyobj'}.get(eterm.sort())
+        if elem is None:
+            return _prev_sfm(it, fr, e, xs)
+    arr = run.fresh('marr', z3.ArraySort(z3.IntSort(), eterm.sort()))
+    r = SymList(xs.n, arr, elem)
+    j = z3.Int('j!mc')
+    r.src, r.parent = z3.Lambda([j], j), xs
+    r.cond_at, r.elt_at = (lambda i: z3.BoolVal(True)), (lambda i: z3.substitute(eterm, (J, i)))
+    run.filters = getattr(run, 'filters', []) + [M.snapshot(r)]
+    run.axiom(z3.ForAll([j], z3.Implies(z3.And(j >= 0, j < xs.n), arr[j] == r.elt_at(j))))
+    return r
+
+
+M.symbolic_filter_map = _map_comprehension
+
+
+# =========================================================================================== recursive message types by reference
+# vizier.StudySpec.ParameterSpec contains (through ConditionalParameterSpec.parameter_spec) values of its own type.  A
+# z3 record cannot: the nested field is stored as a term of an uninterpreted *reference* sort; abs_spec / conc_spec
+# convert between a ParameterSpec record and its reference (conc_spec(abs_spec(t)) == t: a reference denotes exactly
+# the record it was made from).  Python-side the field is read as an ordinary ParameterSpec message (RefMsg) whose
+# mutations write through to the enclosing ConditionalParameterSpec, as protobuf's references do.
+REF_FQ = 'vizier.StudySpec.ParameterSpec#ref'
+PSPEC_FQ = 'vizier.StudySpec.ParameterSpec'
+CPS_FQ = 'vizier.StudySpec.ParameterSpec.ConditionalParameterSpec'
+_REF = {}
+
+
+def enable_parameter_spec_refs():
+    """call once, before any message sort is created"""
+    reg = pm.registry()
+    if REF_FQ in reg.msgs:
+        return
+    ref = pm.MsgSchema(REF_FQ)
+    reg.msgs[REF_FQ] = ref
+    pm.OPAQUE_MESSAGES.add(REF_FQ)
+    pm.OPAQUE_MESSAGES.discard(PSPEC_FQ)
+    pm.OPAQUE_MESSAGES.discard(CPS_FQ)
+    reg.msgs[CPS_FQ].fields['parameter_spec'].type_fq = REF_FQ
+
+
+def ref_ufs():
+    reg = pm.registry()
+    key = id(reg)
+    if key not in _REF:
+        rs, ps = pm.msg_sort(reg.msgs[REF_FQ]), pm.msg_sort(reg.msgs[PSPEC_FQ])
+        _REF[key] = (z3.Function('abs_spec', ps, rs), z3.Function('conc_spec', rs, ps))
+    return _REF[key]
+
+
+def ref_axioms(run):
+    a, c = ref_ufs()
+    t = z3.Const('t!ref', a.domain(0))
+    run.axiom(z3.ForAll([t], c(a(t)) == t, patterns=[a(t)]))
+
+
+class RefMsg(Msg):
+    """the ParameterSpec behind a reference-typed field"""
+
+    def pack_inner(self):
+        return Msg.pack(self)
+
+    def pack(self):
+        a, c = ref_ufs()
+        if not self.f and not self.has and not self.case and self.base is not None and z3.is_app(self.base) \
+                and self.base.decl().eq(c):
+            return self.base.arg(0)
+        return a(Msg.pack(self))
+
+
+_orig_msg_get = Msg.get
+
+
+def _msg_get(self, name):
+    f = self.schema.fields.get(name)
+    if f is not None and not f.repeated and f.kind == 'message' and f.type_fq == REF_FQ:
+        if name in self.f:
+            return self.f[name]
+        reg = pm.registry()
+        a, c = ref_ufs()
+        child = RefMsg(reg.msgs[PSPEC_FQ], base=(c(self._acc(name)) if self.base is not None else None))
+        child.parent = (self, name)
+        self.f[name] = child
+        return child
+    return _orig_msg_get(self, name)
+
+
+Msg.get = _msg_get
+
+_orig_copy_from = Msg.copy_from
+
+
+def _copy_from(self, other):
+    if isinstance(other, RefMsg) or isinstance(self, RefMsg):
+        t = other.pack_inner() if isinstance(other, RefMsg) else other.pack()
+        self.base = t
+        self.f, self.has, self.case = {}, {}, {}
+        self.touch()
+        return
+    return _orig_copy_from(self, other)
+
+
+Msg.copy_from = _copy_from
+
+
+def invoke_real(it, fv, args, kw):
+    """execute the real body of a repo function even though a contract is registered for it in engine.MODELS (the
+    contract dispatches: abstract arguments -> contract, ordinary arguments -> real code)"""
+    env = it.bind(fv, args, kw)
+    fr = E.Frame(fv.mod, env, func=fv, parent=fv.closure)
+    it.run.inlined.add('%s:%s' % (fv.mod.dotted, fv.qualname))
+    it.depth += 1
+    it.stack.append(fv)
+    try:
+        it.block(fr, fv.node.body)
+    except E.PyReturn as r:
+        return r.v
+    finally:
+        it.stack.pop()
+        it.depth -= 1
+    return None
